@@ -378,7 +378,7 @@ def scripts(ctx):
             out.append(("bad-frame-zoo", S))
     for _ in range(ctx.scale(300, 5000)):
         out.append(("client-dropped", gen_script(rng, drop=True)))
-    for _ in range(ctx.scale(6000, 150000)):
+    for _ in range(ctx.scale(6000, 400000)):
         out.append(("random", gen_script(rng)))
     return out
 
